@@ -529,6 +529,48 @@ def run(ck):
                 except Exception as e:
                     if short(e) != "err-temp":
                         ck.fail("refused:list:other:%s" % tag, "component list refused for another reason: %s" % short(e), inp)
+    # ---- temperatures that differ in the sixth digit are different temperatures: refused through every route -------------------------
+    for tag, cls in classes[:1]:
+        pa_ = KINDS["OverdampedBrownian"](20.0, rng, 300.0); pb_ = KINDS["OverdampedBrownian"](35.0, rng, 300.002)
+        for route in ("list", "+", "+=", "add_to_data"):
+            inp = {"class": tag, "temperatures": [300.0, 300.002], "route": route}
+            ck.case(("close-temperatures", tag, route), nontrivial=True, cls=tag, types=1)
+            try:
+                with energy_units("1/cm"):
+                    if route == "list":
+                        cls(ta, [dict(pa_), dict(pb_)])
+                    else:
+                        fa_, fb_ = cls(ta, dict(pa_)), cls(ta, dict(pb_))
+                        if route == "+":
+                            fa_ + fb_
+                        elif route == "+=":
+                            fa_ += fb_
+                        else:
+                            fa_.add_to_data(fb_)
+                ck.fail("temperature:not-refused:close:%s" % route, "components at 300 K and 300.002 K were added (%s)" % route, inp, [300.0, 300.002])
+            except Exception as e:
+                if short(e) != "err-temp":
+                    ck.fail("refused:close-temperatures:other:%s" % route, "refused for another reason: %s" % short(e), inp)
+    # ---- components that differ only in the number of Matsubara terms (same correlation time): the composite still is the sum ------------
+    for tag, cls in classes[:1]:
+        try:
+            comps_ = [dict(ftype="OverdampedBrownian", reorg=20.0, cortime=100.0, T=77.0, matsubara=2),
+                      dict(ftype="OverdampedBrownian", reorg=30.0, cortime=100.0, T=77.0, matsubara=60),
+                      dict(ftype="OverdampedBrownian", reorg=10.0, cortime=60.0, T=77.0, matsubara=20)]
+            with energy_units("1/cm"):
+                singles_ = [cls(ta, dict(c_)) for c_ in comps_]
+                want_ = sum(numpy.array(f_.data) for f_ in singles_)
+                variants_ = {"list constructor": cls(ta, [dict(c_) for c_ in comps_]),
+                             "(a+b)+c": (singles_[0] + singles_[1]) + singles_[2], "a+(b+c)": singles_[0] + (singles_[1] + singles_[2]),
+                             "copy of (a+b)+c": ((singles_[0] + singles_[1]) + singles_[2]).copy()}
+            for nm_, f_ in variants_.items():
+                dv_ = relerr(f_.data, want_)
+                ck.case(("matsubara-counts", tag, nm_), nontrivial=True, cls=tag, types=1)
+                if dv_ > 1e-12:
+                    ck.fail("data:matsubara-counts:%s" % tag, "a composite of components with equal correlation time and different numbers of Matsubara terms (%s) "
+                            "is not the sum of its components" % nm_, {"components": comps_, "built_as": nm_}, dv_)
+        except Exception as e:
+            ck.fail("raises:matsubara-counts", "raised %r" % (e,), {})
     # ---- one parameter dictionary reused (and changed) by the script between constructions, in every unit incl. internal ones -------
     for tag, cls in classes:
         for units in ("int", "1/cm", "eV"):
